@@ -70,7 +70,10 @@ def step_extract():
     ej = os.path.join(CACHE, "extract.json")
     with Lock("extract"):
         t_start = time.time()
-        rc, out = run([sys.executable, os.path.join(HERE, "extract.py")])
+        try:
+            rc, out = run([sys.executable, os.path.join(HERE, "extract.py")], timeout=900)
+        except subprocess.TimeoutExpired:
+            rc, out = 124, "extract.py did not finish within 900 s"
         try:
             # a crashed translator must not leave the previous run's tables standing in for this one
             if os.path.getmtime(ej) < t_start - 2:
